@@ -75,6 +75,12 @@ type c11Dict map[string]int64
 func (d *c11Dict) Put(k string, v int64) int64 { (*d)[k] = v; return int64(len(*d)) }
 func (d c11Dict) Has(k string) bool            { _, ok := d[k]; return ok }
 
+// a Go error type, handed out by Go functions as the interface type error and wanted back as the pointer it is
+type c11Err struct{ Code int64 }
+
+func (e *c11Err) Error() string  { return fmt.Sprint("c11Err ", e.Code) }
+func (e *c11Err) String() string { return "E" + fmt.Sprint(e.Code) }
+
 var c11Types = []struct {
 	name string
 	t    reflect.Type
@@ -297,6 +303,11 @@ func c11Env(h *c11Host) *env.Env {
 	e.Define("each", func(xs []int64, f func(int64)) { h.rec("each", xs); for _, x := range xs { f(x) } })
 	e.Define("obj", c11Obj{N: 10, Name: "o", Tags: []string{"t"}})
 	e.Define("pobj", &c11Obj{N: 20, Name: "p"})
+	e.Define("mkerr", func(code int64) error { h.rec("mkerr", code); return &c11Err{code} })
+	e.Define("mkstringer", func(code int64) fmt.Stringer { h.rec("mkstringer", code); return &c11Err{code} })
+	e.Define("wanterrptr", func(p *c11Err) int64 { h.rec("wanterrptr"); return p.Code })
+	e.Define("wanterr", func(x error) string { h.rec("wanterr"); return x.Error() })
+	e.Define("errsl", []error{&c11Err{7}, nil})
 	e.Define("stk", &c11Stack{})
 	e.Define("ctr", new(c11Counter))
 	e.Define("dict", &c11Dict{})
@@ -511,6 +522,16 @@ func c11Cases(rnd *Rand) []c11Case {
 	add("dict.Put(\"a\", 1); [dict.Has(\"a\"), dict.Has(\"z\")]", " => "+p([]interface{}{true, false}), "value-receiver method of a named map type through a pointer")
 	add("vstk.Top()", " => "+p(int64(5)), "value-receiver method of a named slice value")
 	add("f = stk.Push; f(1, 2); f(3)", " => "+p(int64(3)), "method value of a pointer-receiver method of a named slice type")
+	// a value that a Go function hands out as a non-empty interface type is the value it holds, wherever it is used next
+	add("wanterrptr(mkerr(3))", "mkerr("+p(int64(3))+"); wanterrptr() => "+p(int64(3)), "an error result passed straight on to a parameter of its concrete pointer type")
+	add("x = mkerr(4); wanterrptr(x)", "mkerr("+p(int64(4))+"); wanterrptr() => "+p(int64(4)), "... through a variable")
+	add("wanterrptr([mkerr(5)][0])", "mkerr("+p(int64(5))+"); wanterrptr() => "+p(int64(5)), "... through a list element")
+	add("wanterrptr(errsl[0])", "wanterrptr() => "+p(int64(7)), "an element of a []error passed to a parameter of its concrete pointer type")
+	add("wanterrptr(mkstringer(6))", "mkstringer("+p(int64(6))+"); wanterrptr() => "+p(int64(6)), "a fmt.Stringer result passed to a parameter of its concrete pointer type")
+	add("wanterr(mkerr(8))", "mkerr("+p(int64(8))+"); wanterr() => "+p("c11Err 8"), "an error result passed to an error parameter")
+	add("wanterr(mkstringer(9))", "mkstringer("+p(int64(9))+"); wanterr() => "+p("c11Err 9"), "a fmt.Stringer result whose value is an error passed to an error parameter")
+	add("wanterrptr(errsl[1])", " => error", "a nil error for a pointer parameter")
+	add("mkerr(2).Code", "mkerr("+p(int64(2))+") => "+p(int64(2)), "member access on an error result reads the field of the value it holds")
 	add("obj.Nope", " => error", "unknown member")
 	add("pobj.N = \"x\"", " => error", "field write without a conversion")
 	// 6. callbacks
